@@ -119,6 +119,73 @@ def exec_cases(rnd, nrand):
     return cases
 
 
+TL_TEMPLATES = [
+    # (kinds, gates, max, steps)   steps: (op, c)
+    ('s', 'c', 2, [('force', 0), ('release', 0)]),                                           # one forced check of a disabled checkable
+    ('s', 'c', 2, [('force', 0), ('force', 0), ('release', 0)]),                             # second request while the forced check runs: 2 executions
+    ('s', 'c', 2, [('close', 0), ('force', 0), ('force', 0), ('release', 0)]),               # the same outside the check period
+    ('a', 'c', 2, [('force', 0), ('force', 0), ('release', 0)]),                             # asynchronous: the second request finds the check in flight (the exception)
+    ('a', 'c', 2, [('enable', 0), ('disable', 0), ('release', 0)]),                          # asynchronous check slower than its interval: still one execution
+    ('a', 'c', 4, [('enable', 0), ('force', 0), ('resched', 0), ('disable', 0), ('release', 0), ('force', 0)]),
+    ('s', 'c', 2, [('force', 0), ('pause', 0), ('resume', 0), ('force', 0), ('release', 0)]),  # resume while pending, forced duplicate dispatch hits the guard
+    ('s', 'c', 2, [('force', 0), ('force', 0), ('pause', 0), ('release', 0), ('resume', 0)]),  # request survives pause/resume
+    ('s', 'o', 2, [('pause', 0), ('force', 0), ('resume', 0)]),                              # forced while paused, served on resume
+    ('ss', 'cc', 1, [('force', 0), ('force', 1), ('release', 0), ('release', 1)]),           # one slot: the second forced check starts when the slot is free
+    ('as', 'cc', 1, [('force', 0), ('force', 1), ('force', 1), ('release', 0), ('release', 1)]),
+    ('sa', 'co', 2, [('enable', 0), ('force', 1), ('close', 0), ('force', 0), ('release', 0)]),
+    ('s', 'c', 2, [('enable', 0), ('close', 0), ('force', 0), ('open', 0), ('disable', 0), ('release', 0)]),
+    ('a', 'c', 2, [('force', 0), ('pause', 0), ('force', 0), ('resume', 0), ('release', 0), ('force', 0)]),
+]
+
+
+def tl_script(kinds, gates, maxc, iv, steps, fam):
+    lines = ['sch_tl_new n=%d max=%d iv=%d kinds=%s gates=%s' % (len(kinds), maxc, iv, kinds, gates)]
+    lines += ['sch_tl_do op=%s c=%d' % (op, c) for (op, c) in steps]
+    lines.append('sch_tl_end')
+    return {'lines': lines, 'tags': {'family': fam}}
+
+
+def tl_random(rnd):
+    """a random quiet timeline.  Two rules keep the outcome independent of timing: no checkable is ever left free-running
+    (enabled, in its period, unpaused, gate open - it would execute every interval), and with fewer slots than checkables
+    nothing is enabled (waiting forced checks are served in the order of the requests, regular ones in the order of keys that
+    depend on the phase of the real clock)."""
+    n = rnd.choice((1, 1, 2, 2, 3))
+    maxc = rnd.choice((1, 2, 2, 4))
+    kinds = ''.join(rnd.choice('sa') for _ in range(n))
+    gate = [rnd.random() < 0.3 for _ in range(n)]
+    gates = ''.join('o' if g else 'c' for g in gate)
+    en = [False] * n; per = [True] * n; paused = [False] * n
+    free = lambda c: en[c] and per[c] and not paused[c] and gate[c]
+    steps = []
+    for _ in range(rnd.randint(4, 11)):
+        for _try in range(20):
+            c = rnd.randrange(n)
+            op = rnd.choice(('force', 'force', 'force', 'enable', 'disable', 'close', 'open', 'pause', 'resume', 'release', 'release', 'hold', 'resched'))
+            if op == 'enable' and maxc < n: continue
+            old = (en[c], per[c], paused[c], gate[c])
+            if op == 'enable': en[c] = True
+            elif op == 'disable': en[c] = False
+            elif op == 'close': per[c] = False
+            elif op == 'open': per[c] = True
+            elif op == 'pause': paused[c] = True
+            elif op == 'resume': paused[c] = False
+            elif op == 'release': gate[c] = True
+            elif op == 'hold': gate[c] = False
+            if free(c):
+                en[c], per[c], paused[c], gate[c] = old
+                continue
+            steps.append((op, c))
+            break
+    return tl_script(kinds, gates, maxc, rnd.choice((60, 80, 100)), steps, 'tl-random')
+
+
+def tl_cases(rnd, nrand):
+    cases = [tl_script(k, g, m, rnd.choice((60, 80, 100)), st, 'tl-template') for (k, g, m, st) in TL_TEMPLATES]
+    cases += [tl_random(rnd) for _ in range(nrand)]
+    return cases
+
+
 def quiet_case(rnd, variant, maxc=1, dur=7000):
     """no storm: the slot holder is paused (1) / deleted (2) mid-check, the completion that frees the slot notifies nobody,
     other checkables are due - the lost-wake-up scenario; found by the head-stays-due-with-a-free-slot criterion"""
@@ -127,7 +194,7 @@ def quiet_case(rnd, variant, maxc=1, dur=7000):
     return {'lines': [line], 'tags': {'family': 'run-quiet', 'n': 4, 'max': maxc}}
 
 
-def run_case(rnd, n, maxc, dur, rate=None, par=4, tail=2500):
+def run_case(rnd, n, maxc, dur, rate=None, par=4, tail=2500, asyn=None):
     tp = rnd.choice((4, 8, 16))
     imin = rnd.choice((50, 100)) if n <= 80 else 200
     imax = 400
@@ -140,42 +207,51 @@ def run_case(rnd, n, maxc, dur, rate=None, par=4, tail=2500):
     cap = 0.25 * min(maxc, tp)
     slow = int(max(0, min(30, 100 * cap * iavg / (n * davg))))
     rate = rate or rnd.choice((100, 200, 400))
-    line = 'sch_run seed=%d n=%d max=%d dur=%d tp=%d imin=%d imax=%d slow=%d thr=%d rate=%d dlo=%d dhi=%d slack=2500 tail=%d par=%d' % (
-        rnd.randint(1, 10 ** 6), n, maxc, dur, tp, imin, imax, slow, rnd.choice((5, 10, 20)), rate, dlo, dhi, tail, par)
-    return {'lines': [line], 'tags': {'family': 'run', 'n': n, 'max': maxc}}
+    if asyn is None:
+        asyn = rnd.choice((0, 30, 30, 60))
+    line = 'sch_run seed=%d n=%d max=%d dur=%d tp=%d imin=%d imax=%d slow=%d thr=%d rate=%d dlo=%d dhi=%d slack=2500 tail=%d par=%d async=%d' % (
+        rnd.randint(1, 10 ** 6), n, maxc, dur, tp, imin, imax, slow, rnd.choice((5, 10, 20)), rate, dlo, dhi, tail, par, asyn)
+    return {'lines': [line], 'tags': {'family': 'run', 'n': n, 'max': maxc, 'async': asyn}}
 
 
 def generate(seed, tier):
     rnd = random.Random(seed)
     cases = []
+    if tier == 'search':
+        # extended search after a broken proof/correspondence: small and bounded (the quick tier must stay below two minutes
+        # also when something broke): the deterministic families and the timelines find what they can find at once
+        cases += tl_cases(rnd, 10)
+        cases += exec_cases(rnd, 20)
+        cases += pcr_cases(rnd, 10)[-40:]
+        for (n, m) in ((8, 4), (20, 8)):
+            cases.append(run_case(rnd, n, m, 3000, par=5, tail=1500, asyn=60))
+        return cases
     if tier == 'quick':
         shapes = [(5, 1), (8, 2), (20, 1), (20, 4), (40, 8), (60, 2), (100, 8), (150, 64), (300, 8), (12, 64)]
         dur = 6000
         nunc, k = 20, 60
-    elif tier == 'search':
-        shapes = [(rnd.choice((5, 10, 20, 40, 80)), rnd.choice((1, 2, 4, 8))) for _ in range(12)]
-        dur = 4000
-        nunc, k = 10, 60
     else:
         shapes = []
         for rep in range(3):
             shapes += [(5, 1), (8, 2), (10, 1), (20, 1), (20, 4), (40, 8), (60, 2), (100, 8), (150, 64), (200, 8), (300, 8), (300, 64)]
         dur = 30000
         nunc, k = 200, 100
-    for (n, m) in shapes:
-        cases.append(run_case(rnd, n, m, dur, par=5 if tier == 'quick' else 4))
+    for i, (n, m) in enumerate(shapes):
+        # every second shape with max >= 4 is guaranteed to have asynchronous commands, some slower than their interval
+        cases.append(run_case(rnd, n, m, dur, par=5 if tier == 'quick' else 4, asyn=(60 if (m >= 4 and i % 2 == 1) else None)))
     for _ in range(nunc):
         cases.append(unc_case(rnd, k))
     for v in (1, 2):
-        for _ in range({'quick': 1, 'search': 1}.get(tier, 3)):
+        for _ in range({'quick': 1}.get(tier, 3)):
             cases.insert(0, quiet_case(rnd, v))
-    cases += pcr_cases(rnd, {'quick': 150, 'search': 100}.get(tier, 2000))
-    cases += exec_cases(rnd, {'quick': 150, 'search': 100}.get(tier, 2000))
+    cases += tl_cases(rnd, {'quick': 26}.get(tier, 300))
+    cases += pcr_cases(rnd, {'quick': 150}.get(tier, 2000))
+    cases += exec_cases(rnd, {'quick': 150}.get(tier, 2000))
     return cases
 
 
 def canon(lines):
-    return [l for l in lines if l.startswith('unc ') or l.startswith('pcr ') or l.startswith('exec ') or l.startswith('fin ') or l.startswith('CRASH') or l.startswith('HANG') or l.startswith('HARNESS') or l.startswith('NOT-RUN')]
+    return [l for l in lines if l.startswith('unc ') or l.startswith('pcr ') or l.startswith('exec ') or l.startswith('fin ') or l.startswith('tl ') or l.startswith('CRASH') or l.startswith('HANG') or l.startswith('HARNESS') or l.startswith('NOT-RUN')]
 
 
 def nontrivial(case, impl_lines):
@@ -183,6 +259,8 @@ def nontrivial(case, impl_lines):
         return True
     if case['lines'][0].startswith('sch_cnew'):
         return len(case['lines']) >= 2
+    if case['lines'][0].startswith('sch_tl_new'):
+        return len(case['lines']) >= 3 and any(l.startswith('tl end ') for l in impl_lines)
     s = sum(1 for l in impl_lines if l.startswith('S '))
     p = sum(1 for l in impl_lines if l.startswith('P '))
     return s >= 50 and p >= 100
@@ -190,6 +268,10 @@ def nontrivial(case, impl_lines):
 
 def classify(case, detail, impl_lines):
     w = detail.split()[0] if detail else ''
+    if w == 'single-flight' and 'sch_exec' in detail and 'second-start' in detail:
+        return 'single-flight-det'   # deterministic ExecuteCheck case (virtual clock): replay always reproduces
+    if case['lines'][0].startswith('sch_tl_new'):
+        return {'single-flight': 'single-flight-timeline', 'forced': 'forced-timeline', 'concurrency': 'concurrency'}.get(w, 'crash' if w == 'crash' else 'timeline')
     if w == 'single-flight' and 'wedged' in detail:
         return 'wedged-det' if 'sch_exec' in detail else 'wedged'
     if w == 'next-check' and 'after-result' in detail:
@@ -200,7 +282,7 @@ def classify(case, detail, impl_lines):
 
 
 def keep_line(l):
-    return l.startswith('sch_run') or l.startswith('sch_cnew')
+    return l.startswith('sch_run') or l.startswith('sch_cnew') or l.startswith('sch_tl_new') or l.startswith('sch_tl_end')
 
 
 def extra_stats(cases, impl):
@@ -214,6 +296,12 @@ def extra_stats(cases, impl):
             continue
         if c['lines'][0].startswith('sch_unc'):
             st['unc_lines'] += sum(1 for l in ls if l.startswith('unc '))
+            continue
+        if c['lines'][0].startswith('sch_tl_new'):
+            st['timeline_steps'] = st.get('timeline_steps', 0) + sum(1 for l in ls if l.startswith('tl ') and not l.startswith('tl end'))
+            st['timeline_unstable'] = st.get('timeline_unstable', 0) + sum(1 for l in ls if ' UNSTABLE ' in l)
+            st['timeline_executions'] = st.get('timeline_executions', 0) + sum(1 for l in ls if l.startswith('tlev S '))
+            st['timeline_forced_clears'] = st.get('timeline_forced_clears', 0) + sum(1 for l in ls if l.startswith('tlev C '))
             continue
         s = p = nrec = w = wl = f = 0
         hic = 0
@@ -235,6 +323,12 @@ def extra_stats(cases, impl):
             if k == 'Q ':
                 for t in l.split():
                     if t.startswith('hiccup='): hic = int(t[7:])
+            if l.startswith('cfg '):
+                for t in l.split():
+                    if t.startswith('async='): st['async_checkables'] = st.get('async_checkables', 0) + int(t[6:])
+                    if t.startswith('asynclong='): st['async_slower_than_interval'] = st.get('async_slower_than_interval', 0) + int(t[10:])
+            if k == 'C ': st['force_clears'] = st.get('force_clears', 0) + 1
+            if k == 'X ': st['executecheck_entries'] = st.get('executecheck_entries', 0) + 1
         st['check_executions'] += s; st['snapshots'] += p; st['next_check_records'] += nrec
         st['liveness_windows'] += w; st['liveness_windows_longer_than_bound'] += wl; st['forced_requests'] += f
         st['max_hiccup_us'] = max(st['max_hiccup_us'], hic)
